@@ -239,7 +239,7 @@ func (p *Program) verifyUnit(ct *Contract, subst map[string]int64, suffix string
 		return p.cs.Frozen[g] && !p.cs.Grounds[g]
 	}
 	e := &Exec{c: c, prog: p, unit: u.Name, props: ct.Props, trusted: map[string]bool{}, kindCnt: map[string]int{},
-		safety: true, nilcheck: ct.NilCheck, nosplit: ct.NoSplit, abstractAll: ct.Abstract, inlines: ct.Inlines, pureCalls: ct.PureCalls, divAbstract: ct.DivAbstract, ghost: map[string]Val{}, reveal: map[string]bool{}}
+		safety: true, nilcheck: ct.NilCheck, nosplit: ct.NoSplit, abstractAll: ct.Abstract, inlines: ct.Inlines, pureCalls: ct.PureCalls, pureFacts: ct.PureFacts, divAbstract: ct.DivAbstract, ghost: map[string]Val{}, reveal: map[string]bool{}}
 	for _, r := range ct.Reveal {
 		e.reveal[r] = true
 	}
@@ -279,7 +279,15 @@ func (p *Program) verifyUnit(ct *Contract, subst map[string]int64, suffix string
 	for _, prm := range fn.Params {
 		v := c.freshVal(prm.Type(), "p_"+prm.Name())
 		if k, ok := subst[prm.Name()]; ok {
-			v = scalar(prm.Type(), bvLitI(scalarSort(prm.Type()).W, k))
+			if ss := scalarSort(prm.Type()); ss != nil && ss.K == SBool {
+				if k != 0 {
+					v = scalar(prm.Type(), tTrue)
+				} else {
+					v = scalar(prm.Type(), tFalse)
+				}
+			} else {
+				v = scalar(prm.Type(), bvLitI(scalarSort(prm.Type()).W, k))
+			}
 		}
 		if _, ok := prm.Type().Underlying().(*types.Pointer); ok {
 			e.refs = append(e.refs, v.T())
@@ -351,7 +359,10 @@ func (p *Program) verifyUnit(ct *Contract, subst map[string]int64, suffix string
 		e.trusted["contract of "+u.Name+" is trusted (body not verified)"] = true
 		return
 	}
-	e.safety = true
+	e.safety = !ct.NoSafety
+	if ct.NoSafety {
+		e.trusted["implicit safety obligations (index, nil, division) are not generated for this unit: assumed"] = true
+	}
 	cells := cloneCells(entry)
 	rets := e.runFunc(fn, args, cells, tTrue, ct)
 	if len(rets) == 0 && len(ct.Ensures) > 0 {
